@@ -255,24 +255,43 @@ func runSolver(ctx context.Context, cfg solverCfg, text string, perCheckMs int, 
 
 // discharge runs all scripts of an Exec and fills in goal statuses.
 func (x *Exec) discharge(dir string, perCheckMs int, workers int) {
-	jobs := x.buildScripts()
+	dischargeAll([]*Exec{x}, dir, perCheckMs, workers)
+}
+
+type jobRef struct {
+	x   *Exec
+	job *scriptJob
+	tag string
+}
+
+// dischargeAll builds the scripts of all executions sequentially (the world
+// is not thread safe) and then runs the solvers on a pool of workers.
+func dischargeAll(xs []*Exec, dir string, perCheckMs int, workers int) {
 	os.MkdirAll(dir, 0o755)
+	var refs []jobRef
+	for _, x := range xs {
+		safe := strings.NewReplacer("/", "_", "(", "", ")", "", "*", "p", " ", "_", "$", "_").Replace(x.entryKey)
+		for i, job := range x.buildScripts() {
+			refs = append(refs, jobRef{x, job, fmt.Sprintf("%s.%d", safe, i)})
+		}
+	}
+	// singles are prepared lazily but need the world: guard with a mutex
+	var wmu sync.Mutex
 	var wg sync.WaitGroup
 	sem := make(chan struct{}, workers)
 	var mu sync.Mutex
-	safe := strings.NewReplacer("/", "_", "(", "", ")", "", "*", "p", " ", "_").Replace(x.entryKey)
-	for i, job := range jobs {
+	for _, ref := range refs {
 		wg.Add(1)
-		go func(i int, job *scriptJob) {
+		go func(ref jobRef) {
 			defer wg.Done()
 			sem <- struct{}{}
 			defer func() { <-sem }()
+			job := ref.job
 			total := time.Duration(perCheckMs*(len(job.goals)+1))*time.Millisecond + 20*time.Second
 			ctx, cancel := context.WithTimeout(context.Background(), total)
 			defer cancel()
 			t0 := time.Now()
-			tag := fmt.Sprintf("%s.%d", safe, i)
-			res, raw, _ := runSolver(ctx, solvers[0], job.text, perCheckMs, dir, tag)
+			res, raw, _ := runSolver(ctx, solvers[0], job.text, perCheckMs, dir, ref.tag)
 			el := time.Since(t0).Milliseconds()
 			mu.Lock()
 			for _, g := range job.goals {
@@ -286,34 +305,35 @@ func (x *Exec) discharge(dir string, perCheckMs int, workers int) {
 				g.status = st
 				g.solver = solvers[0].name
 				g.ms = el / int64(len(job.goals))
+				g.script = filepath.Join(dir, ref.tag+".smt2")
 			}
 			mu.Unlock()
 			// second chance for undecided goals with the other solvers
 			for _, g := range job.goals {
-				want := "unsat"
-				if g.expect == "cover" {
-					want = "sat"
-				}
-				if g.status == want || (g.expect != "cover" && g.status == "sat") {
+				if g.status == "sat" || g.status == "unsat" {
 					continue
 				}
-				single := singleGoalScript(x, job.leaf, g)
+				wmu.Lock()
+				single := singleGoalScript(ref.x, job.leaf, g)
+				wmu.Unlock()
 				for si := 1; si < len(solvers); si++ {
 					t1 := time.Now()
 					ctx2, cancel2 := context.WithTimeout(context.Background(), time.Duration(perCheckMs)*time.Millisecond+10*time.Second)
-					r2, _, _ := runSolver(ctx2, solvers[si], single, perCheckMs, dir, fmt.Sprintf("%s.%d.g%d.%d", safe, i, g.id, si))
+					tag := fmt.Sprintf("%s.g%d.%d", ref.tag, g.id, si)
+					r2, _, _ := runSolver(ctx2, solvers[si], single, perCheckMs, dir, tag)
 					cancel2()
 					if st, ok := r2[g.id]; ok && (st == "sat" || st == "unsat") {
 						mu.Lock()
 						g.status = st
 						g.solver = solvers[si].name
 						g.ms = time.Since(t1).Milliseconds()
+						g.script = filepath.Join(dir, tag+".smt2")
 						mu.Unlock()
 						break
 					}
 				}
 			}
-		}(i, job)
+		}(ref)
 	}
 	wg.Wait()
 }
